@@ -30,6 +30,18 @@ from .passes import (
 ElaboratableType = TypeVar("ElaboratableType", bound=Elaboratables)
 
 
+# Each `ElabPass` class keeps a class-level cache of the modules it has visited.
+# Passes which are run twice need a class of their own for the second run,
+# or every module seen by the first run would be skipped by the second.
+class ConnTypesRepeat(ConnTypes):
+    """Post-flattening repeat of `ConnTypes`"""
+
+
+class OrphanageRepeat(Orphanage):
+    """Post-flattening repeat of `Orphanage`"""
+
+
+
 @datatype
 class Elaborator:
     """
@@ -57,8 +69,8 @@ class Elaborator:
                 #
                 # A couple repeats
                 #
-                ConnTypes,
-                Orphanage,
+                ConnTypesRepeat,
+                OrphanageRepeat,
                 #
                 # And final module-marking
                 #
